@@ -219,7 +219,8 @@ def user_basis(case, r):
 @st.composite
 def cloud_st(draw):
     n = draw(st.integers(5, 40))
-    return {"view": draw(st.sampled_from(["top", "side"])), "n": n, "seed": draw(st.integers(0, 2 ** 31 - 2)),
+    return {"view": draw(st.sampled_from(["top", "side"])), "spell": draw(st.sampled_from(["lower", "lower", "upper", "title", "mixed"])),
+            "n": n, "seed": draw(st.integers(0, 2 ** 31 - 2)),
             "pos_unit": draw(st.sampled_from(["cm", "au", "pc"])), "vel_unit": draw(st.sampled_from(["cm/s", "km/s"])),
             "mass_unit": draw(st.sampled_from(["g", "M_sun"])), "win_unit": draw(st.sampled_from(["cm", "au", "pc"])),
             "axis": [draw(st.floats(-1, 1)) for _ in range(3)], "noise": draw(st.sampled_from([0.0, 0.1, 0.5])),
@@ -264,7 +265,10 @@ def views(case, r):
     dyq = dy * osyris.units(wu)
     org = osyris.Vector(*[osyris.Array(values=origin[i], unit=pu) for i in range(3)])
     try:
-        nb, ub, vb = _basis(case["view"], data=data, dx=dxq, dy=dyq, origin=org)
+        word = case["view"]
+        word = {"lower": word, "upper": word.upper(), "title": word.title(),
+                "mixed": "".join(ch.upper() if i % 2 else ch for i, ch in enumerate(word))}[case.get("spell", "lower")]
+        nb, ub, vb = _basis(word, data=data, dx=dxq, dy=dyq, origin=org)
     except Exception as e:
         r.bad(["views", "raises", case["view"], type(e).__name__], f"{e!r}")
         return
